@@ -16,6 +16,8 @@ use serde_json::json;
 use std::collections::{BTreeMap, BTreeSet};
 use std::io::{Cursor, Read, Write};
 use vh_common::*;
+mod wb;
+mod books;
 
 const ROWS: usize = 1_000_000;
 fn pos(i: usize) -> (i32, i32) { ((i % ROWS) as i32 + 1, (i / ROWS) as i32 + 1) }
@@ -115,11 +117,10 @@ fn all_strings(alpha: &[char], maxlen: usize, out: &mut Vec<String>) {
     }
 }
 
-fn main() {
-    let a = Args::parse();
+struct CodecStats { nontrivial: u64, in_class: u64, in_class_failing: u64, samples: Vec<String> }
+
+fn codec_part(a: &Args, cs: &mut Cases, or: &mut Oracle, dist_out: &mut BTreeMap<String, u64>) -> CodecStats {
     let mut rng = Rng::new(a.seed);
-    let mut cs = Cases::new(&a.out, "c24");
-    let mut or = Oracle::default();
     let mut dist: BTreeMap<String, u64> = BTreeMap::new();
 
     // ------------------------------------------------------------ generators (writer side)
@@ -271,10 +272,27 @@ fn main() {
         format!("class _xHHHH+control: {} members generated, {} of them fail the round trip", in_class, in_class_failing),
         "esc _x0041\\x01 -> _x0041_x0001_ ; rt -> Ax0001_".to_string(),
     ];
+    for (k, v) in dist { *dist_out.entry(k).or_insert(0) += v; }
+    CodecStats { nontrivial, in_class, in_class_failing, samples }
+}
+
+fn main() {
+    let a = Args::parse();
+    let mut cs = Cases::new(&a.out, "c24");
+    let mut or = Oracle::default();
+    let mut dist: BTreeMap<String, u64> = BTreeMap::new();
+    let wb_only = a.extra.iter().any(|x| x == "wb");
+    let st = if wb_only { CodecStats { nontrivial: 0, in_class: 0, in_class_failing: 0, samples: vec![] } } else { codec_part(&a, &mut cs, &mut or, &mut dist) };
+    let codec_checked = or.checked;
+    let ws = books::workbook_part(&a, &mut or);
+    let mut samples = st.samples.clone();
+    samples.extend(ws.samples.iter().cloned());
     let oc = or.checked;
     cs.finish(json!({
-        "distribution": dist, "samples": samples, "oracle_checked": oc, "distinct_nontrivial": nontrivial,
+        "distribution": dist, "samples": samples, "oracle_checked": oc, "distinct_nontrivial": st.nontrivial + ws.nontrivial,
         "oracle_failures": or.failures, "oracle_failures_per_class": or.per_class,
-        "class_members": in_class, "class_members_failing": in_class_failing,
+        "class_members": st.in_class, "class_members_failing": st.in_class_failing,
+        "codec_oracle_checked": codec_checked,
+        "workbooks": ws.meta,
     }));
 }
